@@ -14,6 +14,7 @@ package main
 // are written.
 
 import (
+	"math"
 	"fmt"
 	"go/token"
 	"go/types"
@@ -131,13 +132,13 @@ type c20case struct {
 
 func pv(n int) poly { return polyVar(fmt.Sprintf("p%d", n)) }
 
-func c20model(c *Ctx) bool {
+// newC20m prepares the interpreter for the CRS parsers: symbolic arithmetic, placeholder
+// parameters, a reference valuation for the branches that depend on parameter values.
+func newC20m(c *Ctx) (*c20m, *types.Func) {
 	parse := c.P.Func("proj", "Parse")
 	if parse == nil || c.P.Decl(parse) == nil {
-		c.Unk("C20.R1", "proj.Parse", token.NoPos, "API anchor does not resolve")
-		return false
+		return nil, nil
 	}
-	pos := c.P.Decl(parse).Pos()
 	h := newShpModel(c, nil)
 	m := &c20m{c: c, h: h, it: h.it, defined: map[string]string{}, addDef: c.P.Func("proj", "addDef")}
 	m.err = oIface{opaque: &oOpaque{name: "error", isError: true}}
@@ -148,8 +149,152 @@ func c20model(c *Ctx) bool {
 	// symbolically (is the ellipsoid a sphere? is rf zero?): an ordinary ellipsoid and mid-latitude
 	// parameters
 	m.it.valuation = map[string]float64{"p1": 33, "p2": 45, "p3": 23, "p4": -96, "p5": 500000, "p6": 1e6, "p7": 6378137, "p8": 298.257223563,
-		"p9": 10, "p10": 20, "p11": 30, "p12": 0.3048, "p13": 0.9996, "p21": 1, "p22": 2, "p23": 3, "p24": 0.1, "p25": 0.2, "p26": 0.3, "p27": 1.5}
+		"p9": 10, "p10": 20, "p11": 30, "p12": 0.3048, "p13": 0.9996, "p14": -100, "p15": 30, "p21": 1, "p22": 2, "p23": 3, "p24": 0.1, "p25": 0.2, "p26": 0.3, "p27": 1.5}
 	m.it.stub = m.stub
+	return m, parse
+}
+
+func (m *c20m) run(parse *types.Func, text string) (*oStruct, string) {
+	m.c.Evals(1)
+	res, why := m.it.Call(parse, nil, []oval{strVal(types.Typ[types.String], text)}, 0)
+	if why != "" {
+		return nil, why
+	}
+	if eq, ok := oEqual(res[1], oNil{}); !ok || !eq {
+		return nil, "Parse returns an error"
+	}
+	p, ok := res[0].(oPtr)
+	if !ok || p.s == nil {
+		return nil, "Parse returns " + showVal(res[0])
+	}
+	return p.s, ""
+}
+
+// c09angleModel (C09.R3): every PROJ.4 key that proj4js multiplies by D2R, given a symbolic
+// value, changes exactly the float fields of the reference it is responsible for, and each
+// becomes symbol × deg2rad; every other numeric key leaves the bare symbol.
+func c09angleModel(c *Ctx, deg map[string]bool, numeric map[string]bool) {
+	m, parse := newC20m(c)
+	if m == nil {
+		c.Unk("C09.R3", "proj.Parse", token.NoPos, "API anchor does not resolve")
+		return
+	}
+	pos := c.P.Decl(parse).Pos()
+	var deg2rad poly
+	if o := c.P.Pkg("proj").Types.Scope().Lookup("deg2rad"); o != nil {
+		if k, ok := o.(*types.Const); ok {
+			deg2rad, _ = symFromConstant(k.Val())
+		}
+	}
+	if deg2rad == nil {
+		f := new(big.Rat)
+		f.SetFloat64(math.Pi / 180)
+		deg2rad = polyConst(f)
+	}
+	base, why := m.run(parse, "+proj=longlat +a=P7 +rf=P8 +no_defs")
+	if why != "" {
+		c.Unk("C09.R3", "proj#proj4-parser", pos, "the reference text is not interpretable: %s", why)
+		return
+	}
+	var keys []string
+	for k := range deg {
+		keys = append(keys, k)
+	}
+	for k := range numeric {
+		if !deg[k] {
+			keys = append(keys, k)
+		}
+	}
+	sort.Strings(keys)
+	sym := polyVar("p1")
+	for _, key := range keys {
+		cons := "proj#proj4-param(" + key + ")"
+		if key == "a" || key == "rf" || key == "b" {
+			// part of the reference text itself: compare directly
+			continue
+		}
+		got, why := m.run(parse, "+proj=longlat +a=P7 +rf=P8 +no_defs +"+key+"=P1")
+		if why != "" {
+			if deg[key] {
+				c.Bad("C09.R3", cons, pos, "proj4js parses +%s (an angle) but the Go parser does not accept it: %s", key, why)
+			} else {
+				c.Unk("C09.R3", cons, pos, "+%s=<number> is not interpretable: %s", key, why)
+			}
+			continue
+		}
+		var changed []string
+		bad := ""
+		for _, f := range got.order {
+			gp, ok1 := symOf(got.fields[f])
+			bp, ok2 := symOf(base.fields[f])
+			if _, isInt := got.fields[f].(oInt); isInt || !ok1 || !ok2 {
+				continue
+			}
+			if gp.equal(bp) || (polyHasNaN(gp) && polyHasNaN(bp)) {
+				continue
+			}
+			if !onlySymbol(gp, "p1") {
+				continue // derived from other parameters
+			}
+			changed = append(changed, f)
+			switch {
+			case deg[key] && gp.equal(sym):
+				bad = fmt.Sprintf("+%s=P stores SR.%s = P: an angle in degrees is used as radians (proj4js applies `* D2R`)", key, f)
+			case deg[key] && gp.equal(symMul(symMul(sym, deg2rad), deg2rad)):
+				bad = fmt.Sprintf("+%s=P stores SR.%s = P × deg2rad × deg2rad: converted twice", key, f)
+			case deg[key] && !gp.equal(symMul(sym, deg2rad)):
+				bad = fmt.Sprintf("+%s=P stores SR.%s = %s, want P × deg2rad", key, f, showVal(got.fields[f]))
+			case !deg[key] && gp.equal(symMul(sym, deg2rad)):
+				bad = fmt.Sprintf("+%s=P stores SR.%s = P × deg2rad although proj4js treats it as a plain number", key, f)
+			}
+		}
+		if key == "pm" && bad == "" {
+			// named prime meridians: the table holds degrees
+			if o := c.P.Pkg("proj").Types.Scope().Lookup("primeMeridian"); o != nil {
+				if cell := m.it.global(o); cell != nil {
+					if mp, ok := (*cell).(oMap); ok && mp.keys != nil {
+						for i, k := range *mp.keys {
+							name, _ := strOf(k)
+							tv, okv := symOf((*mp.vals)[i])
+							if name == "" || !okv {
+								continue
+							}
+							named, why := m.run(parse, "+proj=longlat +a=P7 +rf=P8 +no_defs +pm="+name)
+							if why != "" {
+								bad = fmt.Sprintf("+pm=%s is not accepted: %s", name, why)
+								break
+							}
+							if gp, ok := symOf(named.fields["FromGreenwich"]); !ok || !gp.equal(symMul(tv, deg2rad)) {
+								bad = fmt.Sprintf("+pm=%s stores SR.FromGreenwich = %s, want the table's %s degrees × deg2rad", name, showVal(named.fields["FromGreenwich"]), tv.canon())
+								break
+							}
+						}
+					}
+				}
+			}
+		}
+		switch {
+		case bad != "":
+			c.Bad("C09.R3", cons, pos, "%s", bad)
+		case len(changed) == 0 && deg[key]:
+			c.Bad("C09.R3", cons, pos, "+%s=P (an angle) changes no field of the reference", key)
+		case len(changed) == 0:
+			c.OK("C09.R3", cons, pos, "accepted; no float field of the reference depends on it directly")
+		case deg[key]:
+			c.OK("C09.R3", cons, pos, "%v = P × deg2rad", changed)
+		default:
+			c.OK("C09.R3", cons, pos, "%v derived from P without a degree conversion", changed)
+		}
+	}
+}
+
+func c20model(c *Ctx) bool {
+	m, parse := newC20m(c)
+	if m == nil {
+		c.Unk("C20.R1", "proj.Parse", token.NoPos, "API anchor does not resolve")
+		return false
+	}
+	pos := c.P.Decl(parse).Pos()
 	strT := types.Typ[types.String]
 	srT := c.P.NamedType("proj", "SR")
 	if srT == nil {
@@ -169,21 +314,7 @@ func c20model(c *Ctx) bool {
 	}
 	ang := func(n int) poly { return symMul(pv(n), deg2rad) }
 
-	run := func(text string) (*oStruct, string) {
-		c.Evals(1)
-		res, why := m.it.Call(parse, nil, []oval{strVal(strT, text)}, 0)
-		if why != "" {
-			return nil, why
-		}
-		if eq, ok := oEqual(res[1], oNil{}); !ok || !eq {
-			return nil, "Parse returns an error"
-		}
-		p, ok := res[0].(oPtr)
-		if !ok || p.s == nil {
-			return nil, "Parse returns " + showVal(res[0])
-		}
-		return p.s, ""
-	}
+	run := func(text string) (*oStruct, string) { return m.run(parse, text) }
 	field := func(s *oStruct, name string) (poly, bool) {
 		v, ok := s.fields[name]
 		if !ok {
